@@ -78,6 +78,9 @@ pub struct Dir {
     /// Every byte ever written (observers parse the wire format from this).
     pub wire: Vec<u8>,
     pub keep_wire: bool,
+    /// When set, `marks` records (wire offset, simulated time in ns) of every write.
+    pub clock: Option<(zksync_concurrency::ctx::ManualClock, zksync_concurrency::time::Instant)>,
+    pub marks: Vec<(u64, i128)>,
 }
 
 impl Dir {
@@ -93,6 +96,8 @@ impl Dir {
             cfg,
             wire: vec![],
             keep_wire: false,
+            clock: None,
+            marks: vec![],
         }
     }
     pub fn buffered(&self) -> usize {
@@ -231,6 +236,11 @@ impl AsyncWrite for SimPipe {
         d.buf.extend(&data[..n]);
         if d.keep_wire {
             d.wire.extend_from_slice(&data[..n]);
+            if let Some((c, t0)) = &d.clock {
+                let t = (c.now() - *t0).whole_nanoseconds();
+                let off = d.stats.written;
+                d.marks.push((off, t));
+            }
         }
         d.stats.written += n as u64;
         let b = d.buf.len();
